@@ -411,8 +411,9 @@ func oracleCache(in, outp string) {
 					if !after.ExpireTime.Before(now0) && now0.Add(d).After(after.ExpireTime) {
 						fail("late-schedule", t, fmt.Sprintf("delay %v expire in %v", d, after.ExpireTime.Sub(now0)))
 					}
-					if life > 0 && ratio-jitter > 0 && (ratio-jitter)*float64(life) >= float64(time.Millisecond) && d > 0 &&
-						!now0.Add(d).Before(after.ExpireTime) {
+					now1 := time.Now()
+					if life > 0 && ratio-jitter > 0 && (ratio-jitter)*float64(life) >= float64(time.Second) && d > 0 &&
+						now1.Sub(now0) < 500*time.Millisecond && !now1.Add(d).Before(after.ExpireTime) {
 						fail("not-strict", t, fmt.Sprintf("delay %v expire in %v", d, after.ExpireTime.Sub(now0)))
 					}
 				}
